@@ -259,7 +259,7 @@ func run(r *mon.Run) {
 		}
 
 		// 7. an exchange assembled and signed entirely by the reference must be accepted
-		if i%3 == 0 || r.Thorough {
+		if (i/3)%3 == 0 || r.Thorough { // (i%3 selects the version)
 			ref2 := *ref
 			if i%7 == 3 {
 				ref2.URL = "https://example.com/reference-made" // the odd URL shapes are for the byte comparisons only; here the policy (same origin, parsable URL) applies
@@ -270,6 +270,25 @@ func run(r *mon.Run) {
 			ref2.RespHeaders = map[string]string{"content-type": "text/plain", "content-encoding": ce, strings.ToLower(draftOf(ver).HeaderName()): digestHdr, "x-extra": "1"}
 			vurl := spec.ValidityURL
 			date, exp := spec.Date.Unix(), spec.Date.Unix()+3600
+			// every ninth reference-made exchange sits exactly on a limit of the format: a header block of 524288 bytes
+			// resp. a Signature header of 16384 bytes (b2 / b3; "larger than" is what the draft refuses)
+			atLimit := ""
+			if (i/3)%9 == 0 && ver != version.Version1b1 {
+				atLimit = "header-block=524288"
+				pad := 524288 - len(rsxg.HeaderCBOR(&ref2))
+				for tries := 0; tries < 6 && pad > 0; tries++ {
+					ref2.RespHeaders["x-extra"] = "1" + strings.Repeat("p", pad)
+					d := 524288 - len(rsxg.HeaderCBOR(&ref2))
+					if d == 0 {
+						break
+					}
+					pad += d
+				}
+				if len(rsxg.HeaderCBOR(&ref2)) != 524288 {
+					r.HarnessFail("cannot build a reference exchange with a header block of exactly 524288 bytes")
+					continue
+				}
+			}
 			msg := rsxg.SignedMessage(&ref2, certSha[:], vurl, date, exp)
 			rsig, serr := rsxg.Sign(g, id.Key, msg)
 			if serr != nil {
@@ -277,6 +296,28 @@ func run(r *mon.Run) {
 				continue
 			}
 			sh := rsxg.SignatureHeader("ref", rsig, certSha[:], id.CertURL, vurl, rsxg.Integrity(string(ver)), date, exp)
+			if (i/3)%9 == 3 && ver != version.Version1b1 && len(sh) < 16384 && !strings.ContainsAny(vurl, "?#") {
+				// the validity URL is part of the signed message: lengthen it (same origin), sign again; ECDSA signatures vary
+				// in length by a byte or two, so retry until the header is exactly 16384 bytes
+				padLen := 16384 - len(sh) - len("?pad=")
+				for tries := 0; tries < 40 && padLen > 0 && atLimit == ""; tries++ {
+					v2 := vurl + "?pad=" + strings.Repeat("v", padLen)
+					m2 := rsxg.SignedMessage(&ref2, certSha[:], v2, date, exp)
+					sg2, e2 := rsxg.Sign(g, id.Key, m2)
+					if e2 != nil {
+						break
+					}
+					sh2 := rsxg.SignatureHeader("ref", sg2, certSha[:], id.CertURL, v2, rsxg.Integrity(string(ver)), date, exp)
+					if len(sh2) == 16384 {
+						sh, atLimit = sh2, "signature-header=16384"
+						break
+					}
+					padLen += 16384 - len(sh2)
+				}
+				if atLimit == "" {
+					r.Count("note:signature-header-limit-not-reached")
+				}
+			}
 			file, ok := rsxg.File(&ref2, sh)
 			if ok {
 				var back *signedexchange.Exchange
@@ -305,6 +346,10 @@ func run(r *mon.Run) {
 					bad("REFERENCE-EXCHANGE-PAYLOAD", "Verify returned a different payload for the reference-made exchange", nil)
 				default:
 					r.Eval("reference-made-exchange-accepted")
+					if atLimit != "" {
+						r.Eval("reference-made-exchange-at-limit-accepted")
+						r.Distinct("at-limit|" + string(ver) + "|" + atLimit)
+					}
 				}
 			}
 		}
